@@ -15,11 +15,25 @@ def config_fields(prog):
     """attribute names assigned on self in Config.__init__ -> value expr"""
     fi = prog.func("config", "Config.__init__")
     out = {}
+    # a local bound once in the constructor stands for its value (`tmp = LocalClasses(); self.classes = tmp`)
+    once = {}
+    params = set(a.arg for a in fi.node.args.args)
+    for st in ast.walk(fi.node):
+        if isinstance(st, ast.Name) and isinstance(st.ctx, ast.Store):
+            once[st.id] = once.get(st.id, 0) + 1
+    local_val = {}
+    for st in ast.walk(fi.node):
+        if isinstance(st, ast.Assign) and len(st.targets) == 1 and isinstance(st.targets[0], ast.Name) and \
+                once.get(st.targets[0].id) == 1 and st.targets[0].id not in params:
+            local_val[st.targets[0].id] = st.value
     for st in ast.walk(fi.node):
         if isinstance(st, ast.Assign):
             for t in st.targets:
                 if isinstance(t, ast.Attribute) and isinstance(t.value, ast.Name) and t.value.id == "self":
-                    out[t.attr] = st.value
+                    v = st.value
+                    if isinstance(v, ast.Name) and v.id in local_val:
+                        v = local_val[v.id]
+                    out[t.attr] = v
     if len(out) < 8:
         raise AnalysisError("anchor vanished: Config.__init__ assigns %d fields (8 confirmed)" % len(out))
     return out
